@@ -2,6 +2,7 @@
 (real AnalysisHost vs model) + oracle (termination, reachability, links, not-found, indexed once)."""
 import itertools
 import json
+import re
 
 from .. import core
 
@@ -41,7 +42,11 @@ def graphs(ck):
 
 
 WRAP = ["%s", "let v = 1 in { %s }", "foreach i = [1] in { %s }", "if 1 then { %s }", "defset list<int> s%d = { %s }", "if 0 then { def q%d; } else { %s }",
-        "let v = 1 in { foreach j = [1, 2] in { %s } }"]
+        "let v = 1 in { foreach j = [1, 2] in { %s } }",
+        # blocks INSIDE a multiclass body: their statement lists are ordinary ones (an include directly in a multiclass body is a
+        # syntax error, one inside a foreach / let / if of that body is not)
+        "multiclass W%d<int p> { foreach k = [1] in { %s } }", "multiclass X%d { let v = 1 in { %s } def _a; }",
+        "multiclass Y%d { if 1 then { def _t; } else { %s } }", "multiclass Z%d { foreach k = [1, 2] in { if 1 then { %s } } }"]
 
 
 def files_for(n, g, variant, style=0):
@@ -165,7 +170,8 @@ def run(ck):
         else:
             for f in exp_files:
                 want = ["C%d" % f] + (["d%d" % f, "M%d" % f, "_x"] if "def d%d " % f in files[paths[f]] else [])
-                got = [x for x in (syms.get(f) or []) if not x.startswith("s") and not x.startswith("q")]    # (defsets / defs of the wrappers)
+                # (defsets, defs and multiclasses of the wrappers are not counted)
+                got = [x for x in (syms.get(f) or []) if not x.startswith("s") and not x.startswith("q") and not re.match(r"[WXYZ]\d+$|_a$|_t$", x)]
                 if got != want:
                     ck.fail(sig, "declarations of file f%d are not indexed exactly once: %s" % (f, syms.get(f)),
                             {"files": files, "root": paths[0]}, syms.get(f), want)
